@@ -140,7 +140,64 @@ def x_exc_nontuple(ctx, case):
     return True
 
 
-SUBCHECKS = {"expr": x_expr, "sequence": x_sequence, "exc_nontuple": x_exc_nontuple}
+def x_extension(ctx, case):
+    """Matchers are meant to be composed with user-defined ones: (a) a recursive grammar - a MatchesSetwise one of
+    whose constituents (through a small lazy matcher) is that same MatchesSetwise again, so that match() is
+    re-entered while it is running; (b) a MatchesAll SUBCLASS that overrides match() (here: it matches the negated
+    value) nested inside a plain MatchesAll.  The verdict is the documented one in both cases."""
+    from testtools import matchers as M
+
+    class Lazy:
+        def __init__(self, thunk):
+            self.thunk = thunk
+
+        def __str__(self):
+            return "Lazy(...)"
+
+        def match(self, value):
+            return self.thunk().match(value)
+    if case["what"] == "bag":
+        # bag := [] | an unordered triple of 1, 2 and another bag
+        bag = M.MatchesSetwise(M.Equals(1), M.Equals(2), Lazy(lambda: M.MatchesAll(
+            M.IsInstance(list), M.MatchesAny(M.Equals([]), bag), first_only=True)))
+
+        def is_bag(x):
+            if x == []:
+                return True
+            if not isinstance(x, list) or len(x) != 3:
+                return False
+            rest = list(x)
+            for want in (1, 2):
+                hit = [i for i, y in enumerate(rest) if not isinstance(y, list) and y == want]
+                if not hit:
+                    return False
+                rest.pop(hit[0])
+            return isinstance(rest[0], list) and is_bag(rest[0])
+        value = case["value"]
+        if not isinstance(value, list) or len(value) != 3:
+            return False
+        got = verdict(bag, value)[0]
+        ctx.check(got == is_bag(value), "verdict==documented-predicate",
+                  lambda: {"matcher": "bag := MatchesSetwise(Equals(1), Equals(2), Lazy(bag or Equals([])))", "value": value,
+                           "verdict": got, "want": is_bag(value)})
+        return True
+
+    class NegAll(M.MatchesAll):
+        def match(self, value):
+            return super().match(-value)
+    inner = [G.build(e, env()) for e in case["inner"]]
+    outer = [G.build(e, env()) for e in case["outer"]]
+    m = M.MatchesAll(*(outer + [NegAll(*inner, first_only=case["first_only"])]), first_only=case["first_only"])
+    v = case["value"]
+    want = all(G.sem(e, v, env()) for e in case["outer"]) and all(G.sem(e, -v, env()) for e in case["inner"])
+    got = verdict(m, v)[0]
+    ctx.check(got == want, "verdict==documented-predicate",
+              lambda: {"matcher": "MatchesAll(%s, NegAll(%s))" % (case["outer"], case["inner"]), "value": v,
+                       "verdict": got, "want": want})
+    return True
+
+
+SUBCHECKS = {"expr": x_expr, "sequence": x_sequence, "exc_nontuple": x_exc_nontuple, "extension": x_extension}
 
 DOMS = ["int", "str", "bytes", "list", "lstr", "dict", "obj", "exc", "call", "warncall", "path"]
 
@@ -276,6 +333,25 @@ def run(ctx):
                     n += 1
                     ctx.execute("exc_nontuple", {"expr": leaf, "value": value, "wrap": wrap})
     ctx.note_space("every MatchesException leaf x 6 values that are not exc_info tuples x 5 wrappings", n)
+    n = 0
+    atoms = [1, 2, [], [1, 2, []], [2, [], 1], [[], 2, 1], [1, 2], [1, 1, []], [2, 1, [1, [], 2]], [1, 2, [2, 1, [1, 2]]], 3]
+    for a in atoms:
+        for b in atoms:
+            for c in atoms:
+                if ctx.mine():
+                    n += 1
+                    ctx.execute("extension", {"what": "bag", "value": [a, b, c]})
+    ints = [["Equals", 1], ["LessThan", 2], ["GreaterThan", -3], ["NotEquals", 0], ["Equals", -2]]
+    for oi in range(len(ints)):
+        for ii in range(len(ints)):
+            for fo in (False, True):
+                for v in (-2, -1, 0, 1, 2, 5):
+                    if ctx.mine():
+                        n += 1
+                        ctx.execute("extension", {"what": "negall", "outer": [ints[oi]], "inner": [ints[ii], ints[(ii + 1) % 5]],
+                                                  "first_only": fo, "value": v})
+    ctx.note_space("a recursive MatchesSetwise grammar over 11^3 candidate triples; a match()-overriding MatchesAll subclass "
+                   "nested in MatchesAll: 5 x 5 matcher choices x first_only x 6 values", n)
     ctx.notes["random_cases"] = True
     for i in range(ctx.scale(80000, 3000000)):
         if ctx.out_of_time():
